@@ -333,9 +333,6 @@ impl KnownFindings {
     pub fn known(&self, prop: &str) -> Vec<&Value> {
         self.entries.iter().filter(|e| e["property"] == prop && e["status"] == "known").collect()
     }
-    pub fn is_known(&self, prop: &str, signature: &str) -> Option<&Value> {
-        self.known(prop).into_iter().find(|e| e["signature"] == signature)
-    }
 }
 
 pub struct Extra {
@@ -423,7 +420,16 @@ pub fn parent_main<W: World>(tier: Tier, plan: Plan, extra: Extra) -> i32 {
             continue;
         }
         let sig = v["signature"].as_str().unwrap_or("");
-        if let Some(e) = kf.is_known(prop, sig) {
+        // a listed finding is identified by the signature of the world in its replay file
+        let listed = kf.known(prop).into_iter().find(|e| {
+            std::fs::read_to_string(format!("{}/{}", VERIF_DIR, e["replay"].as_str().unwrap_or("")))
+                .ok()
+                .and_then(|s| serde_json::from_str::<Value>(&s).ok())
+                .and_then(|f| W::from_json(&f["world"]).ok())
+                .map(|w| w.signature() == sig)
+                .unwrap_or(false)
+        });
+        if let Some(e) = listed {
             known_lines += 1;
             println!("KNOWN-FINDING: property={} {} (met again at run index {})", prop, e["what"].as_str().unwrap_or(""), v["run_index"]);
             continue;
